@@ -475,6 +475,19 @@ def step (w : World) (line : String) : World × String :=
         | .inserted n => (w, "inserted " ++ toString n)
       | none => (w, "no-store")
     | _, _ => (w, "bad-op")
+  -- `put` through a caller that does not learn the number of removed entries (`hash_and_insert`)
+  | ["putq", sid, tok] =>
+    match parseNat? sid, parseEntry? tok with
+    | some sid, some e =>
+      match w.getSpec sid with
+      | some s =>
+        let (s', out) := Spec.put s e
+        let w := (w.setSpec sid s').addOffered sid e
+        match out with
+        | .notInserted => (w, "notinserted")
+        | .inserted _ => (w, "inserted")
+      | none => (w, "no-store")
+    | _, _ => (w, "bad-op")
   | ["dump", sid] =>
     match parseNat? sid with
     | some sid =>
@@ -583,6 +596,16 @@ def step (w : World) (line : String) : World × String :=
       | some t =>
         let (t', out) := Tables.localPut t e
         (w.setT sid t', showInsertResult out)
+      | none => (w, "no-store")
+    | _, _ => (w, "bad-op")
+  -- `tlocal` through a caller that does not learn the number of removed entries
+  | ["tlocalq", sid, tok] =>
+    match parseNat? sid, parseEntry? tok with
+    | some sid, some e =>
+      match w.getT sid with
+      | some t =>
+        let (t', out) := Tables.localPut t e
+        (w.setT sid t', match out with | .inserted _ => "inserted" | o => showInsertResult o)
       | none => (w, "no-store")
     | _, _ => (w, "bad-op")
   -- `Replica::insert` on the tables: the emptiness guard, then as `tlocal`
@@ -698,6 +721,17 @@ def step (w : World) (line : String) : World × String :=
         let s' := Swarm.step s (.localWrite i e)
         ({ w with swarms := (sid, s') :: w.swarms.filter (·.1 != sid) },
           match out with | .notInserted => "notinserted" | .inserted n => "inserted " ++ toString n)
+      | none => (w, "no-store")
+    | _, _, _ => (w, "bad-op")
+  | ["wlocalq", sid, i, tok] =>
+    match parseNat? sid, parseNat? i, parseEntry? tok with
+    | some sid, some i, some e =>
+      match w.swarms.lookup sid with
+      | some s =>
+        let out := (Spec.put (s.st i) e).2
+        let s' := Swarm.step s (.localWrite i e)
+        ({ w with swarms := (sid, s') :: w.swarms.filter (·.1 != sid) },
+          match out with | .notInserted => "notinserted" | .inserted _ => "inserted")
       | none => (w, "no-store")
     | _, _, _ => (w, "bad-op")
   -- `Replica::insert` at replica i: refused by the emptiness guard, nothing is written anywhere
